@@ -11,7 +11,8 @@
         FilterToAvailableCollectionChannels                         [filter_available]
         expandCollectionWildCardChannel / expandWildCardChannel     [expand_wildcard]
         AuthorizeAnyCollectionChannel  (default collection: auth/role.go authorizeAnyChannel on the USER;
-                                        named collection: the user's CollectionAccess, then every role)   [authorize_any]
+                                        named collection: the user's CollectionAccess, then every role)   [authorize_any;
+                                        authorize_any_with true = the default-collection code before a58a51d]
 
    A TimedSet is a list of (name, sequence) pairs that may mention a name several times: the Go map that results from
    Add / AddChannel holds, for every name, the smallest positive sequence ([since]); its key set is [keys].
@@ -76,10 +77,18 @@ Definition expand_wildcard (v : uview) (cs : list N) : list N :=
 (* AuthorizeAnyCollectionChannel: true = authorized *)
 Definition any_own (t : tset) (cs : list N) : bool :=
   match cs with [] => has t star | _ => existsb (can_see_own t) cs end.
-Definition authorize_any (is_default : bool) (v : uview) (cs : list N) : bool :=
+(* own_only = true: the default-collection code before the repair a58a51d, where the empty set (a document in no
+   channel) was authorized by the user's OWN "*" only (princ.Channels()); false: the code as it is now
+   (princ.canSeeChannel("*"), which also asks the roles) *)
+Definition authorize_any_with (own_only : bool) (is_default : bool) (v : uview) (cs : list N) : bool :=
   if is_default
-  then match cs with [] => has (uv_own v) star | _ => existsb (can_see v) cs end
+  then match cs with
+       | [] => if own_only then has (uv_own v) star else can_see v star
+       | _ => existsb (can_see v) cs
+       end
   else any_own (uv_own v) cs || existsb (fun r => any_own (vr_ch r) cs) (uv_roles v).
+Definition default_empty_own_only : bool := false.
+Definition authorize_any : bool -> uview -> list N -> bool := authorize_any_with default_empty_own_only.
 
 (* THE effective set: every channel name the user holds, directly or through an existing role *)
 Definition effective_set (v : uview) : list N :=
